@@ -490,6 +490,12 @@ func oracleC06(c *Case, res *Result) []Violation {
 	if st := findResult(res, "setup", 0); st != nil && len(st.Ops) == 0 {
 		tag += "/emptystore"
 	}
+	for _, ph := range c.Phases[:lastGroupIdx(c)] {
+		if ph.Kind == "restart" {
+			tag += "/coldcache" // the group starts with empty caches: store info is loaded from file by racing transactions
+		}
+	}
+	bad := map[string]map[string]string{} // store -> observer label -> message
 	for _, o := range res.Obs {
 		for _, sp := range c.Stores {
 			d := o.Stores[sp.Name]
@@ -497,18 +503,33 @@ func oracleC06(c *Case, res *Result) []Violation {
 				continue
 			}
 			if d.Count != int64(len(d.Items)) {
-				var outs []string
-				for _, t := range res.Txns {
-					if t.Phase == lastGroupIdx(c) {
-						outs = append(outs, t.Name+":"+t.Outcome)
-					}
+				if bad[sp.Name] == nil {
+					bad[sp.Name] = map[string]string{}
 				}
-				sort.Strings(outs)
-				vs = append(vs, Violation{Class: "count-differs-from-scan" + tag,
-					Msg: fmt.Sprintf("observer %s store %s: Count()=%d but the ordered scan returns %d items [%s]; transactions: %s; faults: %s",
-						o.Label, sp.Name, d.Count, len(d.Items), kvString(d.Items), strings.Join(outs, " "), firedSummary(res))})
+				bad[sp.Name][o.Label] = fmt.Sprintf("Count()=%d but the ordered scan returns %d items [%s]", d.Count, len(d.Items), kvString(d.Items))
 			}
 		}
+	}
+	var outs []string
+	for _, t := range res.Txns {
+		if t.Phase == lastGroupIdx(c) {
+			outs = append(outs, t.Name+":"+t.Outcome)
+		}
+	}
+	sort.Strings(outs)
+	for _, sp := range c.Stores {
+		b := bad[sp.Name]
+		if len(b) == 0 {
+			continue
+		}
+		where := "/persistent" // the cold observer (fresh process, disk truth) sees it
+		msg := b["cold"]
+		if _, cold := b["cold"]; !cold {
+			where = "/warm-cache-only"
+			msg = b["warm"]
+		}
+		vs = append(vs, Violation{Class: "count-differs-from-scan" + where + tag,
+			Msg: fmt.Sprintf("store %s (%s): %s; transactions: %s; faults: %s", sp.Name, strings.TrimPrefix(where, "/"), msg, strings.Join(outs, " "), firedSummary(res))})
 	}
 	return dedupe(vs)
 }
